@@ -17,6 +17,9 @@ ASSUMPTIONS = ["own values are literals (references and built-ins are C02's doma
 TRUSTED = ["Python YAML rendering of generated ASTs (JSON-flavoured YAML)"]
 
 SHAPES = [("null",), ("num", "5"), ("arr", [("num", "1")]), ("obj", [("p", ("num", "1"))]), ("obj", [("q", ("num", "2"))])]
+# shapes with a shared nested key: object / scalar / object alternation must cut at EVERY depth
+DEEP = [("obj", [("b", ("obj", [("y", ("num", "2"))])), ("z", ("num", "9"))]), ("str", "s"), ("obj", [("b", ("obj", [("x", ("num", "1"))]))]),
+        ("obj", [("b", ("num", "7"))]), ("obj", [("b", ("obj", [("y", ("num", "3")), ("x", ("num", "4"))]))])]
 
 
 def nest(e, n):
@@ -45,8 +48,31 @@ def gen(rng, tier):
                             "R": {"imports": [("F", True), ("B", True)], "values": []}}
                     if thorough or rng.chance(1, 3):
                         cases.append(G.case_from_graph(envs, "R"))
+    for s0 in DEEP:
+        for s1 in DEEP:
+            for s2 in DEEP:
+                envs = {"A": {"imports": [], "values": [("o", s0)]}, "B": {"imports": [], "values": [("o", s1)]},
+                        "C": {"imports": [], "values": [("o", s2)]},
+                        "R": {"imports": [("A", True), ("B", True), ("C", True)], "values": []}}
+                cases.append(G.case_from_graph(envs, "R"))
+                envs = {"A": {"imports": [], "values": [("o", s0)]}, "B": {"imports": [], "values": [("o", s1)]},
+                        "R": {"imports": [("A", True), ("B", True)], "values": [("o", s2)]}}
+                cases.append(G.case_from_graph(envs, "R"))
+    # a leaf imported after a merged sibling and again later in the closure (shared cache entry must not be mutated)
+    for s0 in DEEP[:3]:
+        for s1 in DEEP[:3]:
+            for order in ([("x", True), ("b", True), ("y", True), ("c", True)], [("b", True), ("x", True), ("c", True)],
+                          [("x", True), ("b", True), ("c", False)], [("x", True), ("c", True), ("b", True)]):
+                envs = {"x": {"imports": [], "values": [("k", ("num", "1")), ("o", s0)]},
+                        "b": {"imports": [], "values": [("o", s1)]}, "y": {"imports": [], "values": [("k", ("num", "3"))]},
+                        "c": {"imports": [("b", True)], "values": []},
+                        "R": {"imports": order, "values": [("seen", ("sym", [("name", "imports"), ("name", "c")]))] if not order[-1][1] else []}}
+                c = G.case_from_graph(envs, "R")
+                if not order[-1][1]:
+                    continue      # own values must be literals for the fold oracle; the merge:false variant is C10's
+                cases.append(c)
     # random graphs
-    ngraphs = 1500 if thorough else 90
+    ngraphs = 1500 if thorough else 220
     for _ in range(ngraphs):
         nenv = 2 + rng.below(9 if thorough else 5)
         envs = G.gen_graph(rng, nenv, depth=1 + rng.below(3))
